@@ -86,9 +86,13 @@ type c43ClientOutcome struct {
 	rollback []stamp // entry of RollBackwardFunc, per RollBackward event
 	sentAt   []stamp // when the server sent script event i
 	err      string  // harness-level problem (not a verdict)
+	// stuck: the client never got past a WaitForDrain (no pipeline event for
+	// 10 s, well inside the client's 60 s drain timeout); rollbacks observed
+	// before that are still judged, the rest makes no claim.
+	stuck bool
 }
 
-func runC43Client(sc *c43ClientScenario) *c43ClientOutcome {
+func runC43Client(sc *c43ClientScenario, patience time.Duration) *c43ClientOutcome {
 	var items []*itemPlan
 	for _, ev := range sc.Script {
 		if ev.Item != nil {
@@ -189,6 +193,9 @@ func runC43Client(sc *c43ClientScenario) *c43ClientOutcome {
 	cfg := chainsync.NewConfig(
 		chainsync.WithPipeline(w.p),
 		chainsync.WithPipelineLimit(sc.PipelineLimit),
+		// after this timeout the client goes on with the rollback even though the
+		// drain failed (documented); the harness gives up long before
+		chainsync.WithPipelineDrainTimeout(60*time.Second),
 		chainsync.WithRollForwardRawFunc(func(chainsync.CallbackContext, uint, []byte, chainsync.Tip) error { return nil }),
 		chainsync.WithRollBackwardFunc(func(chainsync.CallbackContext, pcommon.Point, chainsync.Tip) error {
 			st := w.tick()
@@ -231,9 +238,9 @@ func runC43Client(sc *c43ClientScenario) *c43ClientOutcome {
 			mu.Unlock()
 			_, _, ga, gs := w.counts()
 			return nb >= nBack && ga >= gs
-		}, 10*time.Second)
+		}, patience)
 		if !done {
-			out.err = "rollback callbacks / applies incomplete 10 s after the last pipeline event\n" + clipStr(stackOfAll(), 20000)
+			out.stuck = true
 		}
 	}
 	if conn != nil {
